@@ -7,3 +7,230 @@ Open Scope N_scope.
 (* by construction: the model has no output channel *)
 Lemma stub_silent : forall tgt cn fs, snd (generate_stub_io tgt cn fs) = [].
 Proof. reflexivity. Qed.
+
+(* ---------------------------------------------------------------------------------------- *)
+(* strings                                                                                  *)
+(* ---------------------------------------------------------------------------------------- *)
+Lemma str_eqb_refl : forall s, str_eqb s s = true.
+Proof. induction s as [|c r IH]; [reflexivity|]. unfold str_eqb in *. cbn [list_eqb]. now rewrite N.eqb_refl, IH. Qed.
+
+Lemma str_eqb_eq : forall a b, str_eqb a b = true -> a = b.
+Proof.
+  unfold str_eqb. induction a as [|x xs IH]; destruct b as [|y ys]; cbn [list_eqb]; intros H; try discriminate; [reflexivity|].
+  apply andb_true_iff in H. destruct H as [H1 H2]. apply N.eqb_eq in H1. subst. f_equal. now apply IH.
+Qed.
+
+Lemma str_eqb_neq_len : forall a b, length a <> length b -> str_eqb a b = false.
+Proof.
+  intros a b H. destruct (str_eqb a b) eqn:E; [|reflexivity]. apply str_eqb_eq in E. subst. now elim H.
+Qed.
+
+Lemma strip_prefix_app : forall p s, strip_prefix p (p ++ s) = Some s.
+Proof. induction p as [|c p IH]; intros s; [now destruct s|]. cbn [strip_prefix app]. now rewrite N.eqb_refl. Qed.
+
+Lemma strip_suffix_app : forall suf t, strip_suffix suf (t ++ suf) = Some t.
+Proof.
+  intros suf. induction t as [|c t IH].
+  - cbn [app]. destruct suf; cbn [strip_suffix]; now rewrite str_eqb_refl.
+  - cbn [app strip_suffix]. rewrite str_eqb_neq_len.
+    + now rewrite IH.
+    + cbn [length]. rewrite app_length. lia.
+Qed.
+
+(* ---------------------------------------------------------------------------------------- *)
+(* identifiers                                                                              *)
+(* ---------------------------------------------------------------------------------------- *)
+Lemma idstart_idchar : forall c, is_idstart c = true -> is_idchar c = true.
+Proof.
+  unfold is_idstart, is_idchar, is_alnum. intros c H. apply orb_true_iff in H. destruct H as [H|H]; rewrite H.
+  - now rewrite orb_true_r.
+  - now rewrite orb_true_r.
+Qed.
+
+Lemma ident_chars : forall n, is_ident n = true -> forallb is_idchar n = true.
+Proof.
+  destruct n as [|c r]; cbn [is_ident forallb]; [discriminate|]. intros H. apply andb_true_iff in H. destruct H as [H1 H2].
+  now rewrite (idstart_idchar _ H1), H2.
+Qed.
+
+Ltac not_char H := apply N.eqb_neq; intro; subst; vm_compute in H; discriminate.
+
+Lemma idchar_not_special : forall c, is_idchar c = true ->
+  (c =? 42) = false /\ (c =? 58) = false /\ (c =? 40) = false /\ (c =? 10) = false /\ (c =? 44) = false
+  /\ is_open c = false /\ is_close c = false.
+Proof.
+  intros c H.
+  assert (forall k, is_idchar k = false -> (c =? k) = false) as A.
+  { intros k Hk. apply N.eqb_neq. intro; subst. rewrite H in Hk. discriminate. }
+  unfold is_open, is_close. rewrite !A by reflexivity. repeat split; reflexivity.
+Qed.
+
+Lemma span_id_app : forall n rest,
+  forallb is_idchar n = true ->
+  match rest with [] => true | c :: _ => negb (is_idchar c) end = true ->
+  span_id (n ++ rest) = (n, rest).
+Proof.
+  induction n as [|c n IH]; intros rest Hn Hr.
+  - cbn [app]. destruct rest as [|c r]; [reflexivity|]. cbn [span_id]. apply negb_true_iff in Hr. now rewrite Hr.
+  - cbn [forallb] in Hn. apply andb_true_iff in Hn. destruct Hn as [Hc Hn]. cbn [app span_id]. rewrite Hc.
+    now rewrite (IH rest Hn Hr).
+Qed.
+
+(* ---------------------------------------------------------------------------------------- *)
+(* bracket walking and the parameter list                                                   *)
+(* ---------------------------------------------------------------------------------------- *)
+Lemma walk_app : forall t d u, walk d (t ++ u) = match walk d t with Some d' => walk d' u | None => None end.
+Proof.
+  induction t as [|c t IH]; intros d u; [reflexivity|]. cbn [app walk].
+  destruct (c =? 10); [reflexivity|]. destruct (is_open c); [apply IH|].
+  destruct (is_close c); [destruct d; [reflexivity|apply IH]|].
+  destruct ((c =? 44) && Nat.eqb d 0); [reflexivity|apply IH].
+Qed.
+
+Lemma walk_idchars : forall n d, forallb is_idchar n = true -> walk d n = Some d.
+Proof.
+  induction n as [|c n IH]; intros d H; [reflexivity|]. cbn [forallb] in H. apply andb_true_iff in H. destruct H as [Hc Hn].
+  destruct (idchar_not_special c Hc) as (_ & _ & _ & H10 & H44 & Ho & Hcl).
+  cbn [walk]. rewrite H10, Ho, Hcl, H44. cbn [andb]. now apply IH.
+Qed.
+
+Lemma split_items_walk : forall t d d' s i l rest,
+  walk d t = Some d' ->
+  split_items d' s = Some (i :: l, rest) ->
+  split_items d (t ++ s) = Some ((t ++ i) :: l, rest).
+Proof.
+  induction t as [|c t IH]; intros d d' s i l rest Hw Hs.
+  - cbn [walk] in Hw. injection Hw as <-. exact Hs.
+  - cbn [walk] in Hw. cbn [app split_items].
+    destruct (c =? 10); [discriminate|].
+    destruct (is_open c). { now rewrite (IH _ _ _ _ _ _ Hw Hs). }
+    destruct (is_close c). { destruct d; [discriminate|]. now rewrite (IH _ _ _ _ _ _ Hw Hs). }
+    destruct ((c =? 44) && Nat.eqb d 0); [discriminate|].
+    now rewrite (IH _ _ _ _ _ _ Hw Hs).
+Qed.
+
+Definition flat (s : str) : Prop := walk 0 s = Some 0%nat.
+
+Lemma split_items_join : forall items rest,
+  items <> [] -> Forall flat items ->
+  split_items 0 (join s_comma items ++ 41 :: rest) = Some (items, rest).
+Proof.
+  induction items as [|x r IH]; intros rest Hne Hf; [now elim Hne|].
+  inversion Hf as [|? ? Hx Hr]; subst.
+  destruct r as [|y r'].
+  - cbn [join]. rewrite (split_items_walk x 0 0 (41 :: rest) [] [] rest Hx); [now rewrite app_nil_r|reflexivity].
+  - change (join s_comma (x :: y :: r')) with (x ++ s_comma ++ join s_comma (y :: r')).
+    rewrite <- !app_assoc. unfold s_comma at 1. cbn [app].
+    rewrite (split_items_walk x 0 0 _ [] (y :: r') rest Hx); [now rewrite app_nil_r|].
+    cbn [split_items]. cbn. rewrite IH; [reflexivity|discriminate|assumption].
+Qed.
+
+(* ---------------------------------------------------------------------------------------- *)
+(* items                                                                                    *)
+(* ---------------------------------------------------------------------------------------- *)
+Definition item_ok (i : item) : bool :=
+  match i with
+  | IPlain n None => is_ident n
+  | IPlain n (Some t) => is_ident n && typestr_ok t
+  | IStar => true
+  | IVarArgs n => is_ident n
+  | IVarKw n => is_ident n
+  end.
+
+Lemma typestr_ok_flat : forall t, typestr_ok t = true -> flat t.
+Proof. unfold typestr_ok, flat. intros t H. destruct (walk 0 t) as [[|n]|]; congruence. Qed.
+
+Lemma ident_first_not_star : forall n, is_ident n = true -> exists c r, n = c :: r /\ (c =? 42) = false.
+Proof.
+  destruct n as [|c r]; cbn [is_ident]; [discriminate|]. intros H. apply andb_true_iff in H. destruct H as [H _].
+  exists c, r. split; [reflexivity|]. now destruct (idchar_not_special c (idstart_idchar c H)).
+Qed.
+
+Lemma render_item_flat : forall i, item_ok i = true -> flat (render_item i).
+Proof.
+  unfold flat. intros [n [t|]| |n|n] H; cbn [item_ok render_item] in *.
+  - apply andb_true_iff in H. destruct H as [Hn Ht]. rewrite walk_app, (walk_idchars _ _ (ident_chars _ Hn)).
+    unfold s_colon. cbn [app walk]. cbn. now apply typestr_ok_flat.
+  - now apply walk_idchars, ident_chars.
+  - reflexivity.
+  - cbn [walk]. cbn. now apply walk_idchars, ident_chars.
+  - cbn [walk]. cbn. now apply walk_idchars, ident_chars.
+Qed.
+
+Lemma parse_item_render : forall i, item_ok i = true -> parse_item (render_item i) = Some i.
+Proof.
+  intros [n [t|]| |n|n] H; cbn [item_ok render_item] in *.
+  - apply andb_true_iff in H. destruct H as [Hn Ht].
+    destruct (ident_first_not_star n Hn) as (c & r & -> & Hc).
+    unfold parse_item. cbn [app]. rewrite Hc.
+    change (c :: r ++ s_colon ++ t) with ((c :: r) ++ s_colon ++ t).
+    rewrite span_id_app; [|now apply ident_chars|reflexivity].
+    rewrite Hn. unfold s_colon at 1. cbn [app]. now rewrite strip_prefix_app.
+  - destruct (ident_first_not_star n H) as (c & r & -> & Hc).
+    unfold parse_item. rewrite Hc.
+    rewrite <- (app_nil_r (c :: r)) at 1. rewrite span_id_app; [|now apply ident_chars|reflexivity].
+    now rewrite H.
+  - reflexivity.
+  - destruct (ident_first_not_star n H) as (c & r & -> & Hc).
+    unfold parse_item. rewrite N.eqb_refl, Hc. now rewrite H.
+  - unfold parse_item. rewrite !N.eqb_refl. now rewrite H.
+Qed.
+
+Lemma mapO_parse_items : forall l, forallb item_ok l = true -> mapO parse_item (map render_item l) = Some l.
+Proof.
+  induction l as [|i l IH]; cbn [forallb map mapO]; intros H; [reflexivity|].
+  apply andb_true_iff in H. destruct H as [Hi Hl]. now rewrite (parse_item_render _ Hi), (IH Hl).
+Qed.
+
+Lemma cl_kw_items : forall k w,
+  cl_kw (map plain k ++ match w with Some x => [IVarKw x] | None => [] end) = Some (k, w).
+Proof.
+  induction k as [|[n t] k IH]; intros w.
+  - destruct w; reflexivity.
+  - cbn [map app plain fst snd cl_kw]. now rewrite IH.
+Qed.
+
+Lemma cl_pos_items : forall a, cl_pos (items_of a) = Some a.
+Proof.
+  intros [args va kw w]. unfold items_of. cbn [a_args a_vararg a_kwonly a_kwarg].
+  induction args as [|[n t] args IH].
+  - cbn [map app]. destruct va as [v|].
+    + cbn [app cl_pos]. now rewrite cl_kw_items.
+    + destruct kw as [|k0 ks].
+      * cbn [map app]. destruct w; reflexivity.
+      * cbn [app cl_pos]. now rewrite cl_kw_items.
+  - cbn [map app plain fst snd cl_pos]. cbn [map app plain fst snd] in IH. now rewrite IH.
+Qed.
+
+Definition ret_str (r : option str) : str := match r with Some t => s_arrow ++ t | None => [] end.
+
+Lemma parse_ret_render : forall r, parse_ret (ret_str r ++ s_dots) = Some r.
+Proof.
+  intros [t|]; unfold parse_ret, ret_str.
+  - replace (str_eqb ((s_arrow ++ t) ++ s_dots) s_dots) with false by reflexivity.
+    rewrite <- app_assoc, strip_prefix_app, strip_suffix_app. reflexivity.
+  - cbn [app]. now rewrite str_eqb_refl.
+Qed.
+
+Definition def_ok (d : mdef) : bool :=
+  is_ident (m_name d) && nonempty (items_of (m_args d)) && forallb item_ok (items_of (m_args d)).
+
+Lemma render_def_body_eq : forall d,
+  render_def_body d = s_def ++ m_name d ++ [40] ++ join s_comma (map render_item (items_of (m_args d))) ++ [41]
+                      ++ ret_str (m_ret d) ++ s_dots.
+Proof. reflexivity. Qed.
+
+Lemma parse_def_render : forall d, def_ok d = true -> parse_def (render_def d) = Some d.
+Proof.
+  intros [name args ret] H. unfold def_ok in H. cbn [m_name m_args] in H.
+  apply andb_true_iff in H. destruct H as [H Hitems]. apply andb_true_iff in H. destruct H as [Hname Hne].
+  unfold parse_def, render_def, indent. rewrite render_def_body_eq. cbn [m_name m_args m_ret].
+  rewrite app_assoc, strip_prefix_app.
+  rewrite span_id_app; [|now apply ident_chars|reflexivity].
+  rewrite Hname. cbn [app]. rewrite N.eqb_refl.
+  rewrite split_items_join.
+  - rewrite (mapO_parse_items _ Hitems), cl_pos_items, parse_ret_render. reflexivity.
+  - destruct (items_of args); [discriminate|]. discriminate.
+  - apply Forall_forall. intros s Hs. apply in_map_iff in Hs. destruct Hs as (i & <- & Hi).
+    apply render_item_flat. rewrite forallb_forall in Hitems. now apply Hitems.
+Qed.
